@@ -1,5 +1,6 @@
 import Utv.GenEq.Support
 import Utv.Gen.Field
+import Utv.Gen.Functional
 import Utv.Model.C19
 /-!
 C19 — T1 obligation: `Field.ci` of the heap model is the recorded set-up decision, and the regenerated
@@ -18,5 +19,74 @@ theorem C19_gen_is_case_insensitive (W : World Unit) (f : C19.Field) (own option
     Field.is_case_insensitive W (encField f own) options = .ok (.bool f.ci) := by
   gen_obligation "C19_gen_is_case_insensitive: the regenerated code (Utv.Gen) is no longer equal to the hand model here" by
     obj_simp [Field.is_case_insensitive, encField, getattr, lookupAttr, OVal.isNone]
+
+/-! ### `multi` / `copy_value` (utils/functional.py) — the heap model's `copyValue` rebuilds exactly the kinds the
+regenerated code rebuilds, with the class the regenerated code gives the result.
+
+`CVal` (the value type of the T1 translation) knows the builtin container class at every level and nothing about
+identity; an object of the heap model is seen through `isinstance`, i.e. an instance of a user subclass of `list`
+is a `list` for `multi` (that is what `isinstance(f, (list, …))` in the source says — `CV.isinstance`).  A change
+of the test (`type(f) in (…)`), of the class list, or of the way the result is built changes the generated text
+and breaks these obligations; what it does to subclass instances is then found by the correspondence run, whose
+defaults include instances of user subclasses of every container kind. -/
+
+open Utv.C03C in
+/-- the class `multi` / `isinstance(.., dict)` see -/
+def cclsOf (k : Kind) : CCls :=
+  match k.base with
+  | .list => .list | .tuple => .tuple | .set => .set | .fset => .frozenset | .dict => .dict
+  | _ => .other
+
+open Utv.C03C in
+/-- one level of a heap-model object, children already translated -/
+def encNode (k : Kind) (xs : List CVal) : CVal :=
+  match cclsOf k with
+  | .dict => .dict (xs.map (fun _ => .atom 0)) xs
+  | .other => .atom 0
+  | c => .seq c xs
+
+/-- `Kind.copied` is the regenerated test `multi(data) or isinstance(data, dict)` -/
+theorem C19_gen_copied_iff_multi_or_dict (k : Kind) (xs : List C03C.CVal) :
+    k.copied = (Functional.multi (encNode k xs) || C03C.CV.isinstance (encNode k xs) [.dict]) := by
+  gen_obligation "C19_gen_copied_iff_multi_or_dict: utils/functional.py multi()/copy_value no longer test what the heap model's Kind.copied says" by
+    cases k with
+    | usr b => cases b <;> simp [Kind.copied, Kind.base, encNode, cclsOf, Functional.multi, C03C.CV.isinstance, C03C.CV.typeOf]
+    | _ => simp [Kind.copied, Kind.base, encNode, cclsOf, Functional.multi, C03C.CV.isinstance, C03C.CV.typeOf]
+
+/-- what is not rebuilt is handed back as it is (`return data`) — whatever the recursive calls would do -/
+theorem C19_gen_not_copied_returns_argument (W : C03C.World) (rec : C03C.CVal → C03C.M C03C.CVal) (k : Kind)
+    (xs : List C03C.CVal) (h : k.copied = false) :
+    Functional.copy_value_step W rec (encNode k xs) = .ok (encNode k xs) := by
+  gen_obligation "C19_gen_not_copied_returns_argument: copy_value no longer returns other objects unchanged" by
+    cases k with
+    | usr b => cases b <;> simp_all [Kind.copied, Kind.base, encNode, cclsOf, Functional.copy_value_step, Functional.multi,
+        C03C.CV.isinstance, C03C.CV.typeOf, pure, Except.pure, bind, Except.bind]
+    | _ => simp_all [Kind.copied, Kind.base, encNode, cclsOf, Functional.copy_value_step, Functional.multi,
+        C03C.CV.isinstance, C03C.CV.typeOf, pure, Except.pure, bind, Except.bind]
+
+/-- a sequence-like object is rebuilt by calling its class on the copies of its items: every item goes through the
+recursive call (nothing nested is shared), and the class is the object's own (`type(data)(…)`) -/
+theorem C19_gen_seq_rebuilt_from_copies (W : C03C.World) (rec : C03C.CVal → C03C.M C03C.CVal) (k : Kind)
+    (xs : List C03C.CVal) (h : k.isSeq = true) :
+    Functional.copy_value_step W rec (encNode k xs)
+      = (xs.mapM rec >>= fun ys => C03C.CV.construct W (cclsOf k) ys) := by
+  gen_obligation "C19_gen_seq_rebuilt_from_copies: copy_value no longer rebuilds a list/set/tuple from the copies of its items" by
+    cases k with
+    | usr b => cases b <;> simp_all [Kind.isSeq, Kind.base, encNode, cclsOf, Functional.copy_value_step, Functional.multi,
+        C03C.CV.isinstance, C03C.CV.typeOf, C03C.CV.iter, pure, Except.pure, bind, Except.bind]
+    | _ => simp_all [Kind.isSeq, Kind.base, encNode, cclsOf, Functional.copy_value_step, Functional.multi,
+        C03C.CV.isinstance, C03C.CV.typeOf, C03C.CV.iter, pure, Except.pure, bind, Except.bind]
+
+/-- a dict (or dict subclass) is rebuilt as a *plain* dict with the same keys and copied values (`Kind.rebuilt`) -/
+theorem C19_gen_dict_rebuilt_from_copies (W : C03C.World) (rec : C03C.CVal → C03C.M C03C.CVal) (k : Kind)
+    (xs : List C03C.CVal) (h : k.base = .dict) :
+    Functional.copy_value_step W rec (encNode k xs)
+      = (xs.mapM rec >>= fun ys => pure (C03C.CVal.dict (xs.map (fun _ => .atom 0)) ys)) := by
+  gen_obligation "C19_gen_dict_rebuilt_from_copies: copy_value no longer rebuilds a dict from the copies of its values" by
+    cases k with
+    | usr b => cases b <;> simp_all [Kind.base, encNode, cclsOf, Functional.copy_value_step, Functional.multi,
+        C03C.CV.isinstance, C03C.CV.typeOf, C03C.CV.dictMapValues, pure, Except.pure, bind, Except.bind]
+    | _ => simp_all [Kind.base, encNode, cclsOf, Functional.copy_value_step, Functional.multi,
+        C03C.CV.isinstance, C03C.CV.typeOf, C03C.CV.dictMapValues, pure, Except.pure, bind, Except.bind]
 
 end Utv.GenEq.C19
